@@ -30,7 +30,8 @@ finally:
     if inplace:
         sh("git -C /repo checkout -- .")
     else:
-        sh("rm -rf %s /verif/.build/alt_*" % cp)
+        import hashlib
+        sh("rm -rf %s /verif/.build/alt_%s" % (cp, hashlib.sha256(cp.encode()).hexdigest()[:8]))
 viol = [l for l in out.split("\n") if l.startswith("VIOLATION")]
 desc = [l.strip() for l in out.split("\n") if l.strip().startswith("violation:")]
 res = {"check": pid, "tier": tier, "exit": rc, "caught": rc == 1 and bool(viol), "wall_s": round(time.time() - t0, 1),
